@@ -494,6 +494,8 @@ func parseSearchQuery(query, countryCode string, withLogin bool) ([][]string, []
 		quo bool
 		// Current token is a quoted string
 		unquote bool
+		// The quoted string has just been closed: only an operator or the end of the query may follow.
+		closed bool
 		// Start of the current token
 		start int
 		// End of the current token
@@ -525,20 +527,28 @@ func parseSearchQuery(query, countryCode string, withLogin bool) ([][]string, []
 			}
 		}
 
+		// The quote opened by the current rune takes effect after the preceding token is emitted.
+		var openQuote bool
 		if curr == QUO {
 			if ctx.quo {
 				// End of the quoted string. Close the quote.
 				ctx.quo = false
+				ctx.closed = true
 			} else {
 				if prev == ORD {
 					// Reject strings like a"b
 					return nil, nil, fmt.Errorf("missing operator at or near %d", pos)
 				}
 				// Start of the quoted string. Open the quote.
-				ctx.quo = true
-				ctx.unquote = true
+				openQuote = true
 			}
 			curr = ORD
+		} else if ctx.closed {
+			if curr == ORD {
+				// Reject strings like "a"b
+				return nil, nil, fmt.Errorf("missing operator at or near %d", pos)
+			}
+			ctx.closed = false
 		}
 
 		// Parser: process the current lexem in context.
@@ -609,6 +619,11 @@ func parseSearchQuery(query, countryCode string, withLogin bool) ([][]string, []
 			ctx.preOp = ctx.postOp
 			ctx.postOp = NONE
 			ctx.unquote = false
+		}
+
+		if openQuote {
+			ctx.quo = true
+			ctx.unquote = true
 		}
 
 		prev = curr
